@@ -390,6 +390,46 @@ def rule_rawbytes(ctx, rep, rid="R-C14-rawbytes"):
                 "the result of %s" % via.split("::")[-1] if via else "something else"))
 
 
+def rule_asdecoded(ctx, rep, rid="R-C14-asdecoded"):
+    """What the compiler sees is what the decoder produced.  Between `Encoding::decode` and the text that path_to_source returns, nothing may
+    rewrite the text - least of all only for one of the encodings (typographic quotes mapped to ASCII quotes "for Windows-1252 files" make
+    the same characters a different program depending on how the file was saved).  In the decoding unit the decoded text is only copied
+    (to_string / into_owned / clone / deref ...) on its way to the result: a call that takes it and returns another text is reported."""
+    from vlib import units
+    r = rep.rule(rid, "the text a decoder produced is returned as it is: between Encoding::decode and the result of path_to_source it is only copied, never handed to a function "
+                      "that returns another text", floor=1, floor_what="decode calls in the decoding unit")
+    COPY = {"to_string", "into_owned", "to_owned", "clone", "deref", "as_ref", "borrow", "into", "from", "as_str", "fmt", "new_display", "new_debug", "name", "is_empty", "len",
+            "display", "trace", "debug", "log", "starts_with", "eq", "ne", "unwrap", "expect", "map", "ok_or", "ok_or_else", "and_then", "Some", "chars", "bytes"}
+    n = 0
+    for b in sorted(decoding_unit(ctx), key=lambda x: x.id):
+        seeds = {c.dest[0] for c in b.calls() if (c.callee or "") == "encoding_rs::Encoding::decode" and not c.dest[1]}
+        if not seeds:
+            continue
+        n += len(seeds)
+        taint = units.forward(b, seeds)
+        fn = norm(b.id).replace("ironplcc::source::", "")
+        k = 0
+        bad = False
+        for c in sorted(b.calls(), key=lambda c: (c.loc[0], c.loc[1])):
+            if (c.callee or "") == "encoding_rs::Encoding::decode":
+                continue
+            if not any(op_place(a) is not None and op_place(a)[0] in taint for a in c.args):
+                continue
+            nm = (c.callee or c.u or "?").split("::")[-1]
+            ty = re.sub(r"\s", "", b.local_ty(c.dest[0]) or "")
+            texty = ("str" in ty or "String" in ty or "Cow<" in ty) and "Option<usize>" not in ty and "Chars" not in ty and "Bytes" not in ty
+            if nm in COPY or not texty or (c.callee or "").startswith(("log::", "core::fmt::")):
+                continue
+            k += 1
+            bad = True
+            r.finding("%s|%s applied to the decoded text#%d" % (fn, nm, k), loc_str(b.f, c.loc), "the decoded text is handed to %s, which returns another text: what is compiled is no longer what the "
+                      "decoder read from the file (and differs between encodings if the call is made for some of them only)" % (c.callee or c.u or "?"))
+        if not bad:
+            r.ok("%s|decoded text only copied" % fn, "%s:%d" % (b.f["file"], b.f["line"]))
+    if not n:
+        rep.error(rid, "no Encoding::decode call in the decoding unit (anchor moved)")
+
+
 def rule_bump(ctx, rep, rid="R-C14-bump"):
     """logos::Lexer::bump(n) moves the lexer by n *bytes* and panics when that is not a character boundary.  A callback that finds the end of
     its token by counting characters (`chars().enumerate()`, `chars().count()`, `chars().position(..)`) and hands that count to bump works for
@@ -490,6 +530,7 @@ def run(ctx, rep):
     rule_slice(ctx, rep)
     rule_samestr(ctx, rep)
     rule_bump(ctx, rep)
+    rule_asdecoded(ctx, rep)
     rule_rawbytes(ctx, rep)
     rule_bytesize(ctx, rep)
     from rules import c06_globals
